@@ -459,6 +459,9 @@ def r142(ctx, rep, f, ev, cg, reach):
         if fw in f.fns:
             ev.call_hooks = [(lambda fn, res: fn.endswith("Receiver::<T>::recv"),
                               lambda n, a, v=v: Agg("core::result::Result", "Ok", {"0": Agg(IST, v, {"0": Sym("P")})})),
+                             # `for msg in rx.iter()` / `rx.into_iter()`: the iterator's next() is recv().ok()
+                             (lambda fn, res: "flume::" in (res or "") and (res or "").endswith("Iterator>::next"),
+                              lambda n, a, v=v: Agg("core::option::Option", "Some", {"0": Agg(IST, v, {"0": Sym("P")})})),
                              # the description of a trigger type is the view library's table (decided by R14.2|run-trigger-string)
                              (lambda fn, res: (res or fn).endswith("::trigger_type_string_from_int"), lambda n, a: Sym("TRIGGER_STRING(%s)" % vkey(a[0])))]
             try:
@@ -526,7 +529,8 @@ def r142(ctx, rep, f, ev, cg, reach):
             if v == "LayerStaveSeen":
                 ok = a == "(sym(payload(sym(stat),LayerStaveSeen.layer)),sym(payload(sym(stat),LayerStaveSeen.stave)))"
             elif v == "RunTriggerType":
-                ok = a == "(sym(field(sym(payload(sym(stat),RunTriggerType)),0)),sym(field(sym(payload(sym(stat),RunTriggerType)),1)))"
+                # the (number, name) pair rebuilt from its two components, or handed over whole
+                ok = a in ("(sym(field(sym(payload(sym(stat),RunTriggerType)),0)),sym(field(sym(payload(sym(stat),RunTriggerType)),1)))", "sym(payload(sym(stat),RunTriggerType))")
             elif v == "PayloadSize":
                 ok = a == "sym(cast(sym(payload(sym(stat),PayloadSize)) as u64))"
             else:
